@@ -251,6 +251,8 @@ class ExecutionState:
 
         # Concurrency management for parallel operations: parent_id -> {child_operation_ids}
         self._parent_to_children: dict[str, set[str]] = {}
+        # Reverse links of _parent_to_children
+        self._child_to_parent: dict[str, str] = {}
 
         # Operations whose parent has completed
         self._parent_done: set[str] = set()
@@ -439,6 +441,9 @@ class ExecutionState:
                     self._parent_to_children[operation_update.parent_id].add(
                         operation_update.operation_id
                     )
+                    self._child_to_parent[operation_update.operation_id] = (
+                        operation_update.parent_id
+                    )
 
                 # Handle CONTEXT completion - mark descendants while holding lock
                 if (
@@ -456,6 +461,7 @@ class ExecutionState:
                     operation_update.operation_id in self._parent_done
                     or operation_update.parent_id in self._parent_done
                     or operation_update.parent_id in self._completed_contexts
+                    or self._has_completed_ancestor(operation_update.parent_id)
                 ):
                     logger.debug(
                         "Rejecting checkpoint for operation %s - parent is done",
@@ -539,6 +545,29 @@ class ExecutionState:
             self.stop_checkpointing()
             # Raise the original exception unwrapped
             raise bg_error.source_exception from bg_error
+
+    def _has_completed_ancestor(self, context_id: str | None) -> bool:
+        """Check whether a context that completed in this invocation encloses the given context.
+
+        _parent_to_children only knows operations that were checkpointed in this invocation. On replay an
+        enclosing context that already exists is entered without a new START, so its descendants are not
+        reachable from the completed context through that map; the recorded operations carry the missing
+        parent links.
+
+        Must be called while holding _parent_done_lock.
+        """
+        seen: set[str] = set()
+        current: str | None = context_id
+        while current and current not in seen:
+            if current in self._completed_contexts or current in self._parent_done:
+                return True
+            seen.add(current)
+            parent: str | None = self._child_to_parent.get(current)
+            if parent is None:
+                recorded = self.operations.get(current)
+                parent = recorded.parent_id if recorded is not None else None
+            current = parent
+        return False
 
     def _mark_orphans(self, context_id: str) -> None:
         """Mark all descendants (direct and transitive) as orphaned.
